@@ -12,7 +12,7 @@ Lemma list_beq_refl : forall l, list_beq l l = true.
 Proof. induction l as [|x l IH]; cbn; [reflexivity|]. rewrite beqb_refl. exact IH. Qed.
 
 (* parsing helpers are only case-split on their results *)
-Local Opaque gather_params utf8_dec find_gt match_path_prefix check_size py_int get_param too_big N.eqb N.leb N.ltb.
+Local Opaque gather_params utf8_dec find_gt match_path_prefix check_size py_int get_param too_big au_gate N.eqb N.leb N.ltb.
 
 (* ------------------------------------------------------------------ tactics *)
 (* case split on the left-most atomic boolean / option scrutinee *)
@@ -126,7 +126,7 @@ Proof.
   start_sim. unfold command_STARTTLS, encrypted_state, just, mk. auto_sim.
 Qed.
 
-Lemma sim_AUTH : forall st a resps out v, R st a -> sim st a (command_AUTH st resps out v).
+Lemma sim_AUTH : forall st a arg resps out v, R st a -> sim st a (command_AUTH st arg resps out v).
 Proof.
   start_sim. unfold command_AUTH, apply_verdict, close_exc, just, mk. auto_sim.
 Qed.
@@ -282,7 +282,7 @@ Proof.
   - unfold command_STARTTLS, just, mk, finish, allowed_tls in *; cbn in *.
     destruct Hbad as [Hbad|Hbad]; brkH Hbad; try err_leaf.
   - unfold command_AUTH, apply_verdict, close_exc, just, mk, finish, allowed in *; cbn in *.
-    destruct Hbad as [Hbad|Hbad]; [discriminate|]. brkH Hbad; try err_leaf.
+    destruct Hbad as [Hbad|Hbad]; brkH Hbad; try err_leaf.
   - unfold command_MAIL, check_size, bad_path, bad_size, apply_verdict, close_exc, just, mk, finish, allowed in *; cbn in *.
     destruct Hbad as [Hbad|Hbad]; brkH Hbad; try err_leaf.
   - unfold command_RCPT, bad_path, apply_verdict, close_exc, just, mk, finish, allowed in *; cbn in *.
